@@ -67,6 +67,20 @@ Theorem C01_stored_member_exact : forall file par cab, 0 < p_bufsize par -> fora
 Proof. exact stored_extract. Qed.
 Print Assumptions C01_stored_member_exact.
 
+(* extract() of a member of an MSZIP folder from a fresh decompressor, any DECOMPBUF, strict or salvage: whenever the MSZIP port,
+   run on the ideal stream of concatenated block payloads, skips to the member's offset and decodes the member without error,
+   extract() returns OK and exactly those bytes *)
+Theorem C01_mszip_member_is_ideal_decode : forall file par cab, 0 < p_bufsize par -> forall fo f pre bs post z1 i1 z2 i2,
+  nth_error (c_folders cab) (N.to_nat (fi_folder f)) = Some fo -> ctype (fo_comp fo) = cffoldCOMPTYPE_MSZIP -> prechecks par fo f = true ->
+  file = pre ++ encs bs ++ post -> fo_offset fo = Z.of_N (Chm.len pre) -> N.of_nat (length bs) = fo_nblocks fo -> Forall (wf_blk (c_bres cab)) bs ->
+  fi_len f <> 0 ->
+  (if fi_off f =? 0 then (SVal (MSPACK_ERR_OK, false, Mszip.zinit), {| irest := pays (fo_comp fo) bs ++ pad EofPad2; iout := [] |})
+   else ideal EofPad2 0 (Mszip.zcall (fi_off f) Mszip.zinit) {| irest := pays (fo_comp fo) bs ++ pad EofPad2; iout := [] |}) = (SVal (MSPACK_ERR_OK, false, z1), i1) ->
+  ideal EofPad2 0 (Mszip.zcall (fi_len f) z1) {| irest := irest i1; iout := [] |} = (SVal (MSPACK_ERR_OK, false, z2), i2) ->
+  exists st', extract file par cab cs_init f = (MSPACK_ERR_OK, rev (iout i2), st').
+Proof. exact mszip_extract. Qed.
+Print Assumptions C01_mszip_member_is_ideal_decode.
+
 (* open(): a cabinet without reserve areas and neighbours lists exactly the folders and files its writer encoded - any number of
    folders and files, any sizes / offsets / attributes / dates, names of 1..255 bytes without NUL, folder indices valid or one of
    the three CONTINUED codes (which mark the first / last folder for merging) - in strict and in salvage mode *)
